@@ -140,6 +140,13 @@ def _check_iso9660_filename(fullname, interchange_level):
     if b';' in name or b';' in extension:
         raise pycdlibexception.PyCdlibInvalidInput('ISO9660 filenames must contain exactly one semicolon')
 
+    # Ecma-119 section 7.6.2 reserves the identifiers consisting of the single
+    # byte 0x00 or 0x01 for the 'dot' and 'dotdot' directory records.  The
+    # d-character check below excludes them at interchange levels 1 to 3, but
+    # at interchange level 4 any byte is allowed.
+    if fullname in (b'\x00', b'\x01'):
+        raise pycdlibexception.PyCdlibInvalidInput('ISO9660 filenames cannot be the reserved dot or dotdot identifier')
+
     if interchange_level == 1:
         # According to Ecma-119, section 10.1, at level 1 the filename can
         # only be up to 8 d-characters or d1-characters, and the extension can
@@ -195,6 +202,13 @@ def _check_iso9660_directory(fullname, interchange_level):
 
     if len(fullname) > maxlen:
         raise pycdlibexception.PyCdlibInvalidInput('ISO9660 directory names at interchange level %d cannot exceed %d characters' % (interchange_level, maxlen))
+
+    # Ecma-119 section 7.6.2 reserves the identifiers consisting of the single
+    # byte 0x00 or 0x01 for the 'dot' and 'dotdot' directory records.  The
+    # d-character check below excludes them at interchange levels 1 to 3, but
+    # at interchange level 4 any byte is allowed.
+    if fullname in (b'\x00', b'\x01'):
+        raise pycdlibexception.PyCdlibInvalidInput('ISO9660 directory names cannot be the reserved dot or dotdot identifier')
 
     # Ecma-119 section 7.6.1 says that directory names consist of one or more
     # d-characters or d1-characters.  While the definition of d-characters and
